@@ -124,6 +124,9 @@ func (p *Program) verifyUnitOnce(u *Unit, splitVal *big.Int, sitePrefix string) 
 		res.Returns++
 		retIdx++
 		renv := &Env{x: x, vars: map[string]Val{}, cur: o.st.world, old: x.oldWorld, st: o.st, oldMem: entryMem, pkg: fn.Pkg}
+		for k, v := range o.env {
+			renv.vars[k] = v
+		}
 		for k, v := range env.vars {
 			renv.vars[k] = v
 		}
@@ -522,14 +525,23 @@ func (x *Exec) applyLemmas(f *Frame, st *State, env *Env, anchor string) {
 			continue
 		}
 		x.assumed["lemma "+lu.Name] = true
+		guard := True
+		if lu.Guard != nil {
+			g, err := x.evalBool(env, lu.Guard)
+			if err != nil {
+				x.errorf("%s: lemma %s guard: %v", x.unit.Name, lu.Name, err)
+				continue
+			}
+			guard = g
+		}
 		for _, r := range ld.Requires {
 			t, err := x.evalBool(sub, r.Expr)
 			if err != nil {
 				x.errorf("lemma %s requires: %v", lu.Name, err)
 				continue
 			}
-			x.oblige(st, "lemma-pre", fmt.Sprintf("%s@%s", lu.Name, anchor), "", t, r.Src)
-			st.assume(t)
+			x.oblige(st, "lemma-pre", fmt.Sprintf("%s@%s", lu.Name, anchor), "", Implies(guard, t), r.Src)
+			st.assume(Implies(guard, t))
 		}
 		for _, e := range ld.Ensures {
 			t, err := x.evalBool(sub, e.Expr)
@@ -537,7 +549,7 @@ func (x *Exec) applyLemmas(f *Frame, st *State, env *Env, anchor string) {
 				x.errorf("lemma %s ensures: %v", lu.Name, err)
 				continue
 			}
-			st.assume(t)
+			st.assume(Implies(guard, t))
 		}
 	}
 }
